@@ -184,7 +184,7 @@ def fn(name, inputs=(), outputs=(), emit=(), wait_for=(), defaults=(), types=Non
     return {"name": name, "kind": "func", "inputs": list(inputs), "outputs": list(outputs), "emit": list(emit),
             "wait_for": list(wait_for), "defaults": [[p, v] for p, v in defaults], "targets": [], "multi": False,
             "intypes": [[p, types[p]] for p in inputs if p in types],
-            "outtypes": [[o, types[o]] for o in outputs if o in types], "sub": [], "ren": []}
+            "outtypes": [[o, types[o]] for o in outputs if o in types], "sub": [], "ren": [], "oren": []}
 
 
 def route(name, inputs, targets, multi=False, emit=(), wait_for=(), defaults=(), types=None):
@@ -199,10 +199,11 @@ def ifelse(name, inputs, when_true, when_false, emit=(), wait_for=(), defaults=(
     return n
 
 
-def gnode(name, sub, ren=()):
-    """Nested graph node; ren = [(inner input, exposed name)]: inner.as_node().with_inputs(inner=exposed)."""
+def gnode(name, sub, ren=(), oren=()):
+    """Nested graph node; ren = [(inner input, exposed name)]: inner.as_node().with_inputs(inner=exposed);
+    oren = [(inner output, exposed name)]: .with_outputs(inner=exposed)."""
     n = fn(name)
-    n.update(kind="graph", sub=[sub], ren=[list(r) for r in ren])
+    n.update(kind="graph", sub=[sub], ren=[list(r) for r in ren], oren=[list(r) for r in oren])
     return n
 
 
@@ -240,9 +241,10 @@ def finalize(p):
                         os_.append(o)
                     ot[o] = dict(map(tuple_pair, m["outtypes"])).get(o)
             rmap = dict(map(tuple_pair, n["ren"]))
-            n["inputs"], n["outputs"], n["emit"] = [rmap.get(x, x) for x in ins], os_, []
+            omap = dict(map(tuple_pair, n["oren"]))
+            n["inputs"], n["outputs"], n["emit"] = [rmap.get(x, x) for x in ins], [omap.get(o, o) for o in os_], []
             n["intypes"] = [[rmap.get(x, x), it[x]] for x in ins if it.get(x)]
-            n["outtypes"] = [[o, ot[o]] for o in os_ if ot.get(o)]
+            n["outtypes"] = [[omap.get(o, o), ot[o]] for o in os_ if ot.get(o)]    # a rename keeps the producer's annotation
     names = set()
     if p["name"] != NONE:
         names.add(p["name"])
@@ -350,6 +352,12 @@ def base_programs():
     sinner = prog([fn("p", ["x"], ["y"], types=typed("x", y=T("list", INT)))], name="si", strict=True)
     P.append(("strict-nested", prog([fn("a", ["u"], ["x"], types=typed("u", x=BOOL)), gnode("si", sinner),
                                      fn("c", ["y"], ["w"], types=typed("w", y=opt(T("list"))))], strict=True)))
+    P.append(("strict-nested-renamed-out", prog([fn("a", ["u"], ["x"], types=typed("u", x=BOOL)),
+                                                 gnode("si", copy.deepcopy(sinner), oren=[("y", "yy")]),
+                                                 fn("c", ["yy"], ["w"], types=typed("w", yy=opt(T("list"))))], strict=True)))
+    P.append(("strict-nested-renamed-both", prog([fn("a", ["u"], ["xx"], types=typed("u", xx=BOOL)),
+                                                  gnode("si", copy.deepcopy(sinner), ren=[("x", "xx")], oren=[("y", "yy")]),
+                                                  fn("c", ["yy"], ["w"], types=typed("w", yy=opt(T("list"))))], strict=True)))
     P.append(("strict-explicit", prog([fn("a", ["x"], ["m"], types=typed("xm")), fn("b", ["m"], ["m"], types=typed("m")),
                                        fn("c", ["m"], ["w"], types=typed("w", m=T("any")))],
                                       edges=[edge("a", "b"), edge("b", "c", ["m"])], strict=True)))
@@ -432,6 +440,12 @@ def flaws_at(p, path, quick):
         q = copy.deepcopy(p)
         return {"kind": kind, "path": list(path), **info}, q, level(q, path)
 
+    def follow(q, old, new):
+        """The wrapper's output rename (with_outputs(old=...)) keeps naming the inner output that was renamed."""
+        if path:
+            w = level(q, path[:-1])["nodes"][path[-1]]
+            w["oren"] = [[new if a == old else a, b] for a, b in w["oren"]]
+
     all_outs = sorted({o for n in L["nodes"] for o in outs(n)})
     for i, n in enumerate(L["nodes"]):
         # -- gates
@@ -473,10 +487,14 @@ def flaws_at(p, path, quick):
                         if o2 != o and o2 not in own:
                             d, q, l = mut("duplicate-producer", node=i, field=field, pos=k, name=o2)
                             _rename_out(l, i, field, k, o2, follow_waits=False)
+                            if not any(o in outs(m) for m in l["nodes"]):
+                                follow(q, o, o2)
                             yield d, q
                     for s in bad_names:
                         d, q, l = mut("illegal-output-name", node=i, field=field, pos=k, name=s)
                         _rename_out(l, i, field, k, s, follow_waits=True)
+                        if not any(o in outs(m) for m in l["nodes"]):
+                            follow(q, o, s)
                         yield d, q
             # -- defaults
             dfl = dict(map(tuple_pair, n["defaults"]))
@@ -670,6 +688,8 @@ def build(p, path="", form="U", check_interface=True, grow=False):
                 node = inner.as_node(name=n["name"])
                 if n["ren"]:
                     node = node.with_inputs(**{a: b for a, b in n["ren"]})
+                if n["oren"]:
+                    node = node.with_outputs(**{a: b for a, b in n["oren"]})
             except Exception as e:  # noqa: BLE001 - classified by the caller
                 raise Rejected("node-ctor", path, e) from e
             if check_interface and (set(node.inputs) != set(n["inputs"]) or set(node.outputs) != set(n["outputs"])):
